@@ -139,7 +139,24 @@ def rand_history(rng):
     return {"init": init, "ops": ops}
 
 
+def wide_histories():
+    """arrays a few hundred columns wide: paddings far longer than anything in the small shapes"""
+    Z = [0] * 8
+    B = [0, 5, 0, 0, 0, 0, 0, 0]
+    yield {"init": ["new", 2, 300, Z], "ops": [["set", ["s", 0, 1], ["s", 280, 290], ["rows", [["s", "abcdefghij"]]]],
+                                              ["get", ["s", 0, 2], ["s", 270, 300]],
+                                              ["set", ["s", 1, 2], ["s", 299, 300], ["rows", [["f", [["Q", B]]]]]],
+                                              ["getrow", 1]]}
+    yield {"init": ["new", 1, 400, B], "ops": [["set", ["s", 0, 1], ["s", 390, 400], ["rows", [["s", "0123456789"]]]],
+                                              ["set", ["s", 0, 1], ["s", 0, 300], ["rows", [["f", [["xy", B]]]]]],
+                                              ["get", ["s", 0, 1], ["s", 0, 400]],
+                                              ["set", ["s", 0, 2], ["s", 257, 258], ["rows", [["s", "k"], ["s", ""]]]]]}
+    yield {"init": ["arr", [["s", "a" * 270], ["f", [["b" * 10, B]]]], None, Z],
+           "ops": [["set", ["s", 1, 2], ["s", 268, 270], ["rows", [["s", "zz"]]]], ["get", ["s", 0, 2], ["s", 260, None]]]}
+
+
 def generate(rng, tier):
+    yield from wide_histories()
     n = 30000 if tier == "thorough" else 2500
     for _ in range(n):
         yield rand_history(rng)
